@@ -95,6 +95,8 @@ def check_case(case):
   if not out.ok:
     return core.result(False, ['raised:' + str(out.stage)])
   labels = ['returned', 'metric:' + case['metric']]
+  if engine.must_not_execute(case, out.qbytes):
+    return core.result(False, labels + ['excluded:runtime_abort_finding'])
   test = {sg['sig']: [G.make_inputs(mspec, si, s) for s in case['test_seeds']]
           for si, sg in enumerate(mspec['subgraphs'])}
   try:
